@@ -35,3 +35,20 @@ package pq
 //@ iface IteratorWithContext.Context
 //@   ensures r0 == inCtx(this)
 //@   pure
+
+// ---------------------------------------------------------------------------------------------------
+// C16: the concrete priority queue.
+
+//@ func (*PriorityQueue).lessThan
+//@   props C16 C08
+//@   requires pq.comp != nil && i != nil && j != nil
+//@   ensures [strictly-less] r0 <==> cmpv(pq.comp, val(i.key), val(j.key)) < 0
+//@   modifies nothing
+
+//@ func (*PriorityQueue).fillNext
+//@   props C16 C11 C08
+//@   requires item != nil && item.iterator != nil
+//@   ensures [err] r0 == inErr(item.iterator, old(inPos(item.iterator)))
+//@   ensures [kv] r0 == nil ==> item.key === inKey(item.iterator, old(inPos(item.iterator))) && item.value === inVal(item.iterator, old(inPos(item.iterator)))
+//@   ensures [step] inPos(item.iterator) == old(inPos(item.iterator)) + 1
+//@   modifies inPos(item.iterator), item.key, item.value
